@@ -483,7 +483,10 @@ func c14Bytes(r *mc.Report, c *codecT, in []byte) {
 // fingerprint, so that a new kind of non-canonical acceptance is a new violation).
 func diffClass(in, re []byte) string {
 	if len(re) < len(in) && bytes.Equal(in[:len(re)], re) {
-		return fmt.Sprintf("accepted-with-%d-surplus-trailing-bytes", len(in)-len(re))
+		if n := len(in) - len(re); n <= 8 {
+			return fmt.Sprintf("accepted-with-%d-surplus-trailing-bytes", n)
+		}
+		return "accepted-with-more-than-8-surplus-trailing-bytes" // one class: the count would mint a fingerprint per length
 	}
 	i := 0
 	for i < len(in) && i < len(re) && in[i] == re[i] {
